@@ -71,6 +71,7 @@ Proof.
   assert (Bph : A <= 6 * 65535) by (unfold A, pseudo_words; lia).
   assert (Bth : B <= 10 * 65535).
   { destruct Hw as (H1 & H2 & H3 & H4 & H5 & H6 & H7). unfold B, tcp_words. rewrite Hc0. lia. }
+  rewrite (N.mod_small A), (N.mod_small B), (N.mod_small C) by lia.
   pose proof (red_bound A ltac:(lia)) as RA. pose proof (red_bound B ltac:(lia)) as RB. pose proof (red_bound C ltac:(lia)) as RC.
   unfold cadd, two32.
   destruct (red A + red B <? 4294967296) eqn:E1; [|lia]. cbn [obind].
@@ -412,6 +413,7 @@ Proof.
   assert (Bph : A <= 6 * 65535) by (unfold A, pseudo_words; lia).
   assert (Bu : B <= 4 * 65535).
   { destruct Hw as (H1 & H2 & H3). unfold B, udp_words. rewrite Hc0. lia. }
+  rewrite (N.mod_small A), (N.mod_small B), (N.mod_small C) by lia.
   pose proof (red_bound A ltac:(lia)) as RA. pose proof (red_bound B ltac:(lia)) as RB. pose proof (red_bound C ltac:(lia)) as RC.
   unfold cadd, two32.
   destruct (red A + red B <? 4294967296) eqn:E1; [|lia]. cbn [obind].
@@ -475,7 +477,7 @@ Proof.
     rewrite wsum_cons2'. rewrite !wsum_be16 by lia. lia. }
   set (S0 := typ * 256 + id + seq + wsum b) in *.
   assert (Ec : c = csum_fold (sumN' (map red [S0]))).
-  { unfold c, ip_checksum. rewrite csum_partial_red, W0. cbn [map sumN']. rewrite N.add_0_r. reflexivity. }
+  { unfold c, ip_checksum. rewrite csum_partial_red, W0. rewrite (N.mod_small S0) by (unfold S0; lia). cbn [map sumN']. rewrite N.add_0_r. reflexivity. }
   assert (Hc : c < 65536) by (rewrite Ec; apply csum_fold_lt; cbn [map sumN']; pose proof (red_bound S0 ltac:(unfold S0; lia)); lia).
   assert (W : wsum (icmp_ser {| ic_typ := typ; ic_code := 0; ic_csum := c; ic_id := id; ic_seq := seq |} ++ b) = sumN' [S0] + c).
   { unfold icmp_ser. cbn [ic_typ ic_code ic_csum ic_id ic_seq]. rewrite <- !app_assoc. cbn [app].
